@@ -65,6 +65,28 @@ def handle (j : Json) : Except String Json := do
                                       ("digits", toJson CoordsTables.roundDigits)])
     | some m, none => pure (okJson [("mass", ratToJson m), ("volume", Json.null), ("digits", toJson CoordsTables.roundDigits)])
     | none, _ => pure (errJson "mass-missing")
+  | "grid" =>
+    -- the default start grid of BuildSystem.__init__ for a box and a spacing
+    let box ← optBox (← j.getObjVal? "box")
+    let s ← ratOfJson (← j.getObjVal? "spacing")
+    match box with
+    | none => throw "grid: box missing"
+    | some b =>
+      let g := startGrid b s
+      pure (okJson [("points", Json.arr (g.map fun p => Json.arr #[ratToJson p.1, ratToJson p.2.1, ratToJson p.2.2]).toArray),
+                    ("counts", Json.arr #[toJson (mgridCount b.1 s), toJson (mgridCount b.2.1 s), toJson (mgridCount b.2.2 s)]),
+                    ("spec", toJson (specGrid b g))])
+  | "spec_grid" =>
+    -- the specification evaluated on an observed grid: not empty, every point in [0, box)
+    let box ← optBox (← j.getObjVal? "box")
+    let pts ← (← (← j.getObjVal? "points").getArr?).toList.mapM fun p => do
+      pure ((← ratOfJson (← p.getArrVal? 0), ← ratOfJson (← p.getArrVal? 1), ← ratOfJson (← p.getArrVal? 2)) : Box)
+    match box with
+    | none => throw "spec_grid: box missing"
+    | some b =>
+      let bad := pts.filter fun p => !(insideBox b p)
+      pure (okJson [("holds", toJson (specGrid b pts)), ("empty", toJson pts.isEmpty),
+                    ("outside", Json.arr ((bad.take 3).map fun p => Json.arr #[ratToJson p.1, ratToJson p.2.1, ratToJson p.2.2]).toArray)])
   | _ => throw s!"unknown op {op}"
 
 end PolyplyVerif.Driver.C03
